@@ -432,6 +432,43 @@ func TestC11(t *testing.T) {
 		ev.Record(rp.C11, true, "crash:recovered-store")
 		return judge(v)
 	}
+	// Workload replays re-run the crash workload and pick the same state, so
+	// they stay meaningful when a fix makes the recorded image unreachable.
+	pickState := func(cr *crashRun, j, p int) crashState {
+		if j%2 == 0 || len(cr.specs) == 0 {
+			return cr.state(p % len(cr.rec.snaps))
+		}
+		spec := cr.specs[p%len(cr.specs)]
+		return cr.rec.tornState(spec, (p/7919)%spec.count())
+	}
+	runWorkloadReplay := func(path string) *Violation {
+		var rp struct {
+			C11      C11Case   `json:"c11"`
+			Workload CrashCase `json:"workload"`
+			PickIdx  int       `json:"pick_index"`
+		}
+		readReplay(path, &rp)
+		cr := runCrashWorkload(rp.Workload)
+		if !cr.workloadOK || cr.total == 0 {
+			return nil
+		}
+		st := pickState(cr, rp.PickIdx, rp.Workload.Picks[rp.PickIdx])
+		v, _ := runC11OnImage(rp.C11, st.Image)
+		ev.Record(rp.C11, true, "crash:recovered-store")
+		return judge(v)
+	}
+	isWorkloadReplay := func(path string) bool {
+		return strings.Contains(string(readReplayRaw(path).Case), `"workload"`)
+	}
+	if envReplay != "" && isWorkloadReplay(envReplay) {
+		for i := 0; i < 5; i++ {
+			if v := runWorkloadReplay(envReplay); v != nil {
+				ev.Report(v, nil)
+				t.Fatalf("replay: %v", v)
+			}
+		}
+		return
+	}
 	if envReplay != "" && strings.Contains(string(readReplayRaw(envReplay).Case), "image_hex") {
 		for i := 0; i < 5; i++ {
 			if v := runImageReplay(envReplay); v != nil {
@@ -455,6 +492,12 @@ func TestC11(t *testing.T) {
 		return
 	}
 	for _, f := range regressFiles("C11") {
+		if isWorkloadReplay(f) {
+			if v := runWorkloadReplay(f); v != nil && ev.Report(v, nil) {
+				t.Fatalf("regression case %s: %v", f, v)
+			}
+			continue
+		}
 		if strings.Contains(string(readReplayRaw(f).Case), "image_hex") {
 			if v := runImageReplay(f); v != nil && ev.Report(v, nil) {
 				t.Fatalf("regression case %s: %v", f, v)
@@ -471,7 +514,7 @@ func TestC11(t *testing.T) {
 	}
 	setRapidChecks(budget(8000, 20000))
 	rapid.Check(t, func(rt *rapid.T) {
-		if pastDeadline() {
+		if pastDeadline() || os.Getenv("VERIF_FOCUS") == "crash" { // the latter: development aid
 			ev.Skip()
 			return
 		}
@@ -504,13 +547,7 @@ func TestC11(t *testing.T) {
 			return
 		}
 		for j, p := range cc.Picks[:3] {
-			var st crashState
-			if j%2 == 0 || len(cr.specs) == 0 {
-				st = cr.state(p % len(cr.rec.snaps))
-			} else {
-				spec := cr.specs[p%len(cr.specs)]
-				st = cr.rec.tornState(spec, (p/7919)%spec.count())
-			}
+			st := pickState(cr, j, p)
 			c := C11Case{Seq: SeqCase{Cfg: cc.Seq.Cfg, Keys: cc.Seq.Keys}, LowUse: lowUse, KillMode: kill}
 			v, cs := runC11OnImage(c, st.Image)
 			crashStores++
@@ -520,11 +557,13 @@ func TestC11(t *testing.T) {
 			}{st.Image.hash(), lowUse}, cs.Relocated > 0 || cs.TargetPrimary > 0, "crash:recovered-store")
 			if v = judge(v); v != nil {
 				rp := struct {
-					C11   C11Case           `json:"c11"`
-					Point string            `json:"point"`
-					Torn  string            `json:"torn"`
-					Image map[string]string `json:"image_hex"`
-				}{c, st.Point, st.Torn, hexImage(st.Image)}
+					C11      C11Case           `json:"c11"`
+					Point    string            `json:"point"`
+					Torn     string            `json:"torn"`
+					Workload CrashCase         `json:"workload"`
+					PickIdx  int               `json:"pick_index"`
+					Image    map[string]string `json:"image_hex"`
+				}{c, st.Point, st.Torn, cc, j, hexImage(st.Image)}
 				if ev.Report(v, rp) {
 					rt.Fatalf("%v", v)
 				}
